@@ -7,10 +7,12 @@ import subprocess
 import sys
 
 VERIF = os.path.dirname(os.path.dirname(os.path.abspath(__file__)))
-src, name, prop = sys.argv[1], sys.argv[2], sys.argv[3]
-others = sys.argv[4:]
-r = subprocess.run([os.path.join(VERIF, "tools/seed_eval.py"), src, prop] + others,
-                   capture_output=True, text=True)
+argv = [a for a in sys.argv[1:] if a != "--scratch"]
+scratch = "--scratch" in sys.argv
+src, name, prop = argv[0], argv[1], argv[2]
+others = argv[3:]
+r = subprocess.run([os.path.join(VERIF, "tools/seed_eval.py"), src, prop] + others
+                   + (["--scratch"] if scratch else []), capture_output=True, text=True)
 try:
     o = json.loads(r.stdout)
 except ValueError:
@@ -45,6 +47,16 @@ meta = {
                     for p, c in o["checks"].items()},
     "origin": "independent sub-agent given only the property text and a scratch worktree",
 }
+if scratch:
+    meta["what_was_run"] = [
+        "git worktree add --detach /tmp/seedkeep_wt HEAD   (scratch worktree of /repo's HEAD; a "
+        "background validation run was reading /repo at the time)",
+        "git -C /tmp/seedkeep_wt apply seeded/%s/patch.diff" % name,
+        "tools/run_tests.sh /tmp/seedkeep_wt",
+        "cd /tmp/seedkeep_wt && PYTHONPATH=/tmp/seedkeep_wt /venv/bin/python seeded/%s/demo.py" % name,
+    ] + ["VERIF_REPO=/tmp/seedkeep_wt ./check %s --tier quick" % p for p in [prop] + others] \
+        + ["git worktree remove --force /tmp/seedkeep_wt"]
+    meta["confirmed"]["patch_applies_to_repo_head"] = True
 if same:
     meta["origin"] = old_meta.get("origin", meta["origin"])
     meta["rebased"] = ("patch.diff was re-based on the current tree after later fix: commits "
